@@ -73,6 +73,8 @@ func main() {
 		os.Exit(workerMain(os.Args[2:]))
 	case "serve":
 		os.Exit(serveMain(os.Args[2:]))
+	case "stress":
+		os.Exit(stressMain(os.Args[2:]))
 	default:
 		usage()
 	}
